@@ -11,7 +11,7 @@ Lemma step_rd sess me alt nd a res :
   match res with
   | Ok (nd', a', t') => (AInv sess (set_thr a' RRd t') /\ delta me RRd a nd nd' (set_thr a' RRd t')) /\ node_frame nd nd'
   | Blocked => True
-  | Panic site => cclosed (n_pcd nd) = true /\ site = "send on closed channel"%string
+  | Panic site => cclosed (n_pcd nd) = true /\ site = "send on closed channel"%string /\ at_pc a RRd FDo 5 = true
   end.
 Proof.
   intros Hinv H.
